@@ -7,8 +7,8 @@ import (
 	"math"
 	"math/big"
 	"sort"
-	"sync"
 	"strings"
+	"sync"
 
 	msm4msg "github.com/goblimey/go-ntrip/rtcm/type_msm4/message"
 	msm4sat "github.com/goblimey/go-ntrip/rtcm/type_msm4/satellite"
